@@ -106,3 +106,20 @@ CHECKS['C12'] = dict(
          'replicated once per iterated slice), mapped with an order-preserving primitive, analysed by compute_features_2d(axis=None), and transposed back exactly for axis 1; '
          'n_jobs/progress do not interfere; BycycleGroup models agree [i][j]; invalid option-list shapes are rejected (decision table).',
     note='Trusted: C-order semantics of ndarray.reshape / flatten, np.swapaxes, zip(*rows); C11 for the delegated 2-D call.')
+
+CHECKS['C18'] = dict(
+    technique='symbolic normal-form equality with reference selections over 20 option scenarios; schema conformance of column reads per centring; literal-list evaluation of label assignment order; nullness of optional limits at comparison sinks',
+    text='For all tables: limit_df (2 centrings x start/stop given or omitted x reset_indices) and limit_signal (4 scenarios) have the normal form of the documented selections, '
+         'with every sample column shifted by the same int(fs*start); None limits never reach a comparison; only columns of the table\'s centring are read; drop/split partition '
+         'columns exactly by the sample_ prefix without touching values; flatten_dfs labels table k with label k in concatenation order, including non-square 2-D lists. '
+         'Not decided: float rounding of start*fs.',
+    note='Trusted: reference in sa/refspec/frames.py; pandas boolean-mask selection keeps order; drop/pop/concat keep values.')
+
+CHECKS['C20'] = dict(
+    technique='symbolic evaluation of the plotting functions up to the drawing primitives; the argument terms recorded on the call trace are compared (normal-form equality) with reference data built from the C18-decided window functions',
+    text='Decides which data reach the drawing primitives, for both centrings, with and without x-limits, plot_only_result and interp settings: the highlighted mask is exactly '
+         '[last side, next side] of is_burst cycles of the windowed table, offset by the first plotted sample; each parameter panel receives the column and threshold of its own key, '
+         'the windowed table and its own axes; panel x/y are the centre-extremum times / values of the cycles in the window plus the threshold line; every marker series is '
+         '(times[cps], sig[cps]) through one index term in the order peaks, troughs, rises, decays; no column outside the table\'s centring is read. '
+         'Nothing about rendered artists or float rounding of the view selection is decided.',
+    note='Trusted: matplotlib / neurodsp plot_time_series / plot_bursts render what they are given; limit_df / limit_signal as decided by C18.')
